@@ -14,6 +14,7 @@ package main
 
 import (
 	"bytes"
+	"crypto/sha1"
 	"fmt"
 	"os"
 	"os/exec"
@@ -106,7 +107,11 @@ func harnessDir() string {
 
 // runWorker runs the worker in a child process and returns (stdout verdict, exit code).
 func runWorker(bin, u, segs string, threads, iters int) (string, int) {
-	cmd := exec.Command(bin, "concworker", u, segs, fmt.Sprint(threads), fmt.Sprint(iters))
+	return runChild(bin, []string{"concworker", u, segs, fmt.Sprint(threads), fmt.Sprint(iters)})
+}
+
+func runChild(bin string, args []string) (string, int) {
+	cmd := exec.Command(bin, args...)
 	var so, se bytes.Buffer
 	cmd.Stdout, cmd.Stderr = &so, &se
 	cmd.Env = append(os.Environ(), fmt.Sprintf("GORACE=halt_on_error=0 exitcode=%d", raceExit))
@@ -135,16 +140,36 @@ var (
 	raceOnce sync.Once
 	raceBin  string
 	raceErr  string
+	raceTemp string // race binary of another tree than /repo: removed when the run ends
 )
 
 // buildRaceBinary builds this harness with the race detector (needs cgo; works
-// offline in this sandbox). Rebuilt on every run from /repo's current tree.
+// offline in this sandbox). Rebuilt on every run from the current tree under
+// test: $VERIF_REPO (default /repo) - for another tree the module replacements
+// of go.mod are pointed at it through a scratch -modfile, as ./check does.
 func buildRaceBinary() (string, string) {
 	raceOnce.Do(func() {
 		dir := harnessDir()
 		out := filepath.Join(dir, "bin", "c18race")
+		args := []string{"build", "-race", "-tags", "verif"}
+		if repo := strings.TrimRight(os.Getenv("VERIF_REPO"), "/"); repo != "" && repo != "/repo" {
+			tag := fmt.Sprintf("%x", sha1.Sum([]byte(repo)))[:8]
+			alt := filepath.Join(os.TempDir(), "c18race-"+tag)
+			mod, err1 := os.ReadFile(filepath.Join(dir, "go.mod"))
+			sum, err2 := os.ReadFile(filepath.Join(dir, "go.sum"))
+			if err1 != nil || err2 != nil || os.MkdirAll(alt, 0o755) != nil {
+				raceErr = "cannot prepare the -modfile for " + repo
+				return
+			}
+			os.WriteFile(filepath.Join(alt, "go.mod"), []byte(strings.ReplaceAll(string(mod), "/repo/", repo+"/")), 0o644)
+			os.WriteFile(filepath.Join(alt, "go.sum"), sum, 0o644)
+			args = append(args, "-modfile", filepath.Join(alt, "go.mod"))
+			out = filepath.Join(os.TempDir(), "c18race-"+tag+".bin")
+			raceTemp = out
+			defer os.RemoveAll(alt)
+		}
 		os.Remove(out)
-		cmd := exec.Command("go", "build", "-race", "-tags", "verif", "-o", out, "./cmd/c18")
+		cmd := exec.Command("go", append(args, "-o", out, "./cmd/c18")...)
 		cmd.Dir = dir
 		cmd.Env = append(os.Environ(), "GOFLAGS=-mod=mod", "GOPROXY=off", "GOSUMDB=off", "GOTOOLCHAIN=local", "CGO_ENABLED=1")
 		b, err := cmd.CombinedOutput()
